@@ -25,4 +25,4 @@ else
 JSON
 fi
 cd "$VERIF/harness"
-go build $MODFLAG -overlay "$ov/overlay.json" -o "$out" ./cmd/c16bvh
+go build -trimpath $MODFLAG -overlay "$ov/overlay.json" -o "$out" ./cmd/c16bvh
